@@ -785,6 +785,41 @@ TOL = {}   # regenerated defaults, as floats (used by the samplers)
 ESCALATE = set()   # registrations whose function changed textually but not semantically (this run)
 
 
+TSOFT = [('spatialmath/base/transformsNd.py', 'isR'),
+         ('spatialmath/base/transformsNd.py', 'isskew'),
+         ('spatialmath/base/transformsNd.py', 'isskewa'),
+         ('spatialmath/base/transformsNd.py', 'iseye'),
+         ('spatialmath/base/transforms3d.py', 'ishom'),
+         ('spatialmath/base/transforms3d.py', 'isrot'),
+         ('spatialmath/base/transforms2d.py', 'ishom2'),
+         ('spatialmath/base/transforms2d.py', 'isrot2'),
+         ('spatialmath/base/vectors.py', 'isunitvec'),
+         ('spatialmath/base/vectors.py', 'iszerovec'),
+         ('spatialmath/base/vectors.py', 'iszero'),
+         ('spatialmath/base/vectors.py', 'isunittwist'),
+         ('spatialmath/base/vectors.py', 'isunittwist2'),
+         ('spatialmath/base/quaternions.py', 'isunit'),
+         ('spatialmath/twist.py', 'Twist3.isvalid'),
+         ('spatialmath/twist.py', 'Twist2.isvalid'),
+         ('spatialmath/quaternion.py', 'UnitQuaternion.isvalid'),
+         ('spatialmath/pose3d.py', 'SO3.isvalid'),
+         ('spatialmath/pose3d.py', 'SE3.isvalid'),
+         ('spatialmath/pose2d.py', 'SO2.isvalid'),
+         ('spatialmath/pose2d.py', 'SE2.isvalid'),
+         ('spatialmath/smuserlist.py', 'SMUserList._import'),
+         ('spatialmath/smuserlist.py', 'SMUserList.arghandler'),
+         ('spatialmath/smuserlist.py', 'SMUserList.__setitem__'),
+         ('spatialmath/smuserlist.py', 'SMUserList.append'),
+         ('spatialmath/smuserlist.py', 'SMUserList.extend'),
+         ('spatialmath/smuserlist.py', 'SMUserList.insert')]
+_TSOFT_STOP = {'isR', 'isskew', 'isskewa', 'iseye', 'ishom', 'isrot', 'ishom2', 'isrot2', 'isunitvec', 'iszerovec', 'iszero', 'isunittwist', 'isunittwist2', 'isunit', 'Twist3.isvalid', 'Twist2.isvalid', 'UnitQuaternion.isvalid', 'SO3.isvalid', 'SE3.isvalid', 'SO2.isvalid', 'SE2.isvalid', 'SMUserList._import', 'SMUserList.arghandler', 'SMUserList.__setitem__', 'SMUserList.append', 'SMUserList.extend', 'SMUserList.insert'}
+
+
+def _tsoft_same(path, label):
+    from lib import tsoft
+    return tsoft.same_thresholds(core.REPO, 'C07', path, label, _TSOFT_STOP - {label})[0]
+
+
 def consts_pass(ctx):
     """emit gen/Consts_C07.v; a skeleton that differs from the recorded one breaks the correspondence of the hand model"""
     lines = ["(* GENERATED on every run by props/C07.py from the AST of /repo's working tree -- do not edit.\n"
@@ -805,7 +840,16 @@ def consts_pass(ctx):
         if fine is not None and exp is not None:
             # the tolerance default itself is not part of the comparison: it is regenerated into Consts and the theorems re-prove their side condition
             strip = lambda h: dict(h, defaults={k: v for k, v in h['defaults'].items() if k != 'tol'})   # noqa: E731
-            if strip(hard) != strip(exp['hard']):
+            if strip(hard) != strip(exp['hard']) and _tsoft_same(path, label):
+                # restructured (helpers extracted, early returns, ...) with every numeric threshold / tolerance default of the function and of the
+                # same-module helpers it calls unchanged: not a broken tie by itself; the execution correspondence (escalated) and the exhaustive
+                # constructor / mutator tables decide
+                ctx.notes.append(f"{label}: semantic summary differs from the recorded one but its numeric thresholds are unchanged (lib/tsoft.py) -> "
+                                 f"numeric correspondence of {DEPENDS.get(label, [])} escalated to thorough size")
+                ctx.count('ast:escalated')
+                ctx.count('ast:restructured')
+                ESCALATE.update(DEPENDS.get(label, []))
+            elif strip(hard) != strip(exp['hard']):
                 ctx.fail(f'ast:skeleton:{label}',
                          f"the semantic summary of {label} ({path}) -- boolean formula returned, comparison operators and thresholds, defaults, library "
                          f"callees with keywords -- differs from the one the hand model was written against: the model no longer corresponds.  "
